@@ -474,3 +474,20 @@ def replay(payload):
         if "expected" in x:
             print("   expected      :", x["expected"])
     return 1 if vs else 0
+
+# --- Glue layer (DESIGN.md 10.11): the Python between the API and the kernels, tied by proof in Properties/C05c.v; this is the
+# executable tie of its trusted parts (translator tools/py2glue.py + primitive semantics Glue/Interp.v): the TRANSLATED term run by the
+# extracted evaluator (ocaml/gluedriver) against the REAL routine of pynapple on the same inputs (harness/gluecmp.py).
+import gluecmp  # noqa: E402
+
+DRIVERS = list(globals().get("DRIVERS", ["driver"])) + ["gluedriver"]
+GLUE_ROUTINES = ['_count', 'jitbin_array', '_bin_average', '_Base.count', '_BaseTsd.bin_average']
+_run_without_glue = run
+
+
+def run(res, tier, seed):
+    _run_without_glue(res, tier, seed)
+    gluecmp.check(res, GLUE_ROUTINES, tier, seed)
+    res.rule += (" | glue: for each of %s the translated Glue.Lang term (coq/Gen/Glue.v) is evaluated by the extracted Glue/Interp.v and compared with the "
+                 "real pynapple routine on canonical sets of a dyadic lattice (incl. negative times, empty, touching, duplicates, unsorted/improper "
+                 "constructor input, thresholds equal to a length or gap); exceptions must match the model's error kind" % ", ".join(GLUE_ROUTINES))
